@@ -109,6 +109,18 @@ fn cc_one(path: &[(autosar_data::ElementName, autosar_data_specification::Elemen
         let ct = normalise(&copy);
         if ct != src_text { return Err(format!("a copy of {} into its own parent (same version) differs from the source :: source {} :: copy {}", cur.element_name(), hex(src_text.as_bytes()), hex(ct.as_bytes()))); }
         cc_registered(&model, &copy, &format!("the copy of {}", cur.element_name()))?;
+        // a second copy next to the first: three siblings with three different item names, each found under its own path
+        if own_name.is_some() {
+            if let Ok(copy2) = parent.create_copied_sub_element(&cur) {
+                let names = [cur.item_name(), copy.item_name(), copy2.item_name()];
+                if names[0] == names[1] || names[0] == names[2] || names[1] == names[2] { return Err(format!("after copying {} twice into its own parent two siblings have the same item name: {:?}", cur.element_name(), names)); }
+                for e in [&cur, &copy, &copy2] {
+                    let found = e.path().ok().and_then(|p| model.get_element_by_path(&p));
+                    if found.as_ref() != Some(e) { return Err(format!("after copying {} twice into its own parent the path {:?} does not lead to its element", cur.element_name(), e.path().ok())); }
+                }
+                let _ = parent.remove_sub_element(copy2);
+            }
+        }
         // the copy is independent: removing it restores the file text
         let _ = parent.remove_sub_element(copy);
         if file.serialize().map_err(|e| e.to_string())? != file_text { return Err(format!("copying {} and removing the copy again does not restore the file text", cur.element_name())); }
